@@ -538,8 +538,8 @@ func (d *Dispatcher) handleError(p *peer, msg *p2p.ErrorMessage) {
 }
 
 func (d *Dispatcher) handleAnnouncePiece(p *peer, msg *p2p.AnnouncePieceMessage) {
-	if int(msg.Index) >= d.torrent.NumPieces() {
-		d.log().Errorf("Announce piece out of bounds: %d >= %d", msg.Index, d.torrent.NumPieces())
+	if msg.Index < 0 || int(msg.Index) >= d.torrent.NumPieces() {
+		d.log().Errorf("Announce piece out of bounds: %d not in [0, %d)", msg.Index, d.torrent.NumPieces())
 		return
 	}
 	i := int(msg.Index)
